@@ -69,7 +69,7 @@ macro_rules! dispatch {
     };
 }
 
-pub trait Suite: RandomizedCiphersuite {
+pub trait Suite: RandomizedCiphersuite + crate::wrappers::Wrap {
     const SID: SuiteId;
     /// scalar encoding is little-endian (Edwards/ristretto) or big-endian (SEC1 suites)
     const LE: bool;
